@@ -25,7 +25,7 @@ RULE = ("each run: one byte string (uniform random / generated message with 1..3
 REAL = common.REAL_DECODER + ["tpmstream.spec.commands.params_common (encrypted parameter type synthesis)"]
 ASSUMPTIONS = ["documented outcomes: normal completion, ConstraintViolatedError subclasses, InputStreamBytesDepletedError, "
                "InputStreamSuperfluousBytesError", "Response is only decoded with a command code (the CLI refuses otherwise)"]
-TIERS = {"quick": {"runs": 100000, "budget": 75, "run_timeout": 120}, "thorough": {"runs": 1500000, "budget": 780, "run_timeout": 120}}
+TIERS = {"quick": {"runs": 100000, "budget": 150, "run_timeout": 120}, "thorough": {"runs": 1500000, "budget": 780, "run_timeout": 120}}
 
 _CORPUS = None
 
